@@ -25,7 +25,46 @@ def loss_of_params(p, length_km):
     return lc * length_km
 
 
+def run_no_insert(case):
+    """the --no-insert-edfas entry point (worker_utils.designed_network(no_insert_edfas=True)) on a hand-written topology that
+    already has all its amplifiers: design still completes the fibres (connector losses) and pads the short spans"""
+    from gnpy.core.elements import Edfa, Fiber
+    viol = []
+    eq = tg.library(case)
+    e = c.edfa
+    L = case['length']
+    amp = (lambda: e('std_low_gain')) if case['amps'] == 'typed' else (lambda: e('std_medium_gain', gain_target=15.0, out_voa=0.0,
+                                                                                   tilt_target=0.0, delta_p=0.0))
+    mk = lambda: [amp(), c.fiber(L), amp(), c.fiber(L + 25), amp()]      # noqa  (con_in / con_out left to the Span defaults)
+    topo = c.build_topology(['A', 'B'], [('A', 'B', mk(), mk())])
+    try:
+        net, equipment, _, _ = c.design(topo, eq, no_insert_edfas=True)
+    except Exception as exc:  # noqa
+        return {'violations': [dict(fingerprint=f'no-insert-design-raised:{type(exc).__name__}', what=f'complete topology designed '
+                                    f'with no_insert_edfas: {type(exc).__name__}: {str(exc)[:200]}', case=case)], 'transitions': 1}
+    pad = eq['Span'][0]['padding']
+    for n in net.nodes():
+        if isinstance(n, Fiber):
+            for k in ('con_in', 'con_out', 'att_in'):
+                if not isinstance(getattr(n.params, k), (int, float)):
+                    viol.append(dict(fingerprint='fibre-without-connector-loss', what=f'no_insert_edfas: {n.uid}: {k} = '
+                                     f'{getattr(n.params, k)!r}', case=case))
+            nxt = next(iter(net.successors(n)))
+            prv = next(iter(net.predecessors(n)))
+            if isinstance(nxt, Edfa) and isinstance(prv, Edfa) and float(n.loss) < pad - 1e-9:
+                viol.append(dict(fingerprint='span-below-padding', what=f'no_insert_edfas: span {n.uid} between {prv.uid} and '
+                                 f'{nxt.uid} has {float(n.loss):.3f} dB < padding {pad} dB', case=case))
+    if len(list(net.nodes())) != len(topo['elements']):
+        viol.append(dict(fingerprint='no-insert-changed-element-count', what=f'{len(topo["elements"])} elements in, '
+                         f'{len(list(net.nodes()))} out', case=case))
+    return {'violations': viol[:4], 'transitions': 1, 'traces': 0 if viol else 1, 'nontrivial': True,
+            'tags': {'no-insert-edfas': 1, 'padding-added': int(any(isinstance(n, Fiber) and float(n.params.att_in) > 0 for n in net.nodes()))},
+            'sample': case}
+
+
 def run_case(case):
+    if case.get('kind') == 'no_insert':
+        return run_no_insert(case)
     import networkx as nx
     from gnpy.core.elements import Edfa, Multiband_amplifier, Fiber, RamanFiber, Fused, Roadm, Transceiver
     from gnpy.core.exceptions import ConfigurationError, NetworkTopologyError, EquipmentConfigError
@@ -145,8 +184,10 @@ def run_case(case):
     for uid, el in original_fibres(topo).items():
         L = el['params']['length'] * 1e3
         parts = [n for n in net.nodes() if isinstance(n, Fiber) and (n.uid == uid or n.uid.startswith(uid + '_('))]
-        if el['type'] == 'RamanFiber':
+        if el['type'] == 'RamanFiber' and L <= max_len_m:
             continue
+        # (a Raman fibre longer than the maximum span length is split like any other fibre; that the spans come out as plain
+        # fibres without pumps is observed on the unchanged tree and not judged: the statement only speaks of length and loss)
         if L > max_len_m:
             tags['split'] = 1
             if len(parts) < 2 or any(p.uid == uid for p in parts):
@@ -213,9 +254,18 @@ def main(rep, tier, seed):
     d = 2 if tier == 'quick' else 3
     bases = engine.pick_bases(sp.bases, seed, tier, n_quick=3)
     cases = [{k: x[k] for k in SPACE} for x in sp.enumerate(d, bases=bases)]
+    # the no_insert_edfas entry point on complete hand-written topologies (short spans need padding, connectors left to defaults)
+    for L in (20, 40, 80):
+        for amps in ('typed', 'full'):
+            for padding in (10, 16, 0):
+                for con in (0.0, 0.5):
+                    for eqn in ('test', 'example'):
+                        cases.append({'kind': 'no_insert', 'length': L, 'amps': amps, 'padding': padding, 'con': con, 'eq': eqn,
+                                      'mode': 'power' if amps == 'typed' else 'gain'})
     results, stats = engine.run_pool('checks.c08', cases, horizon=300)
     rep.absorb(results)
-    rep.cov['bound'] = f'<= {d} deviations from base points {bases} over {list(SPACE)} ({len(tg.CHAINS)} link chains)'
+    rep.cov['bound'] = (f'<= {d} deviations from base points {bases} over {list(SPACE)} ({len(tg.CHAINS)} link chains); + 72 complete '
+                        'hand-written line systems designed through designed_network(no_insert_edfas=True)')
     rep.cov['space_size'] = len(cases)
     rep.cov['exhaustive'] = not stats['budget_hit'] and len(results) == len(cases)
     rep.cov['rule'] = ('a case = one topology document + one equipment document through network_from_json and designed_network; '
@@ -226,5 +276,5 @@ def main(rep, tier, seed):
                        'are contradictory and not explored.')
     rep.assumptions += ['ConfigurationError from the amplifier selection (no model can satisfy the requirement) is a documented '
                         'rejection and counted as such']
-    for k in ('split', 'padding-added', 'inserted:booster', 'inserted:preamp', 'inserted:inline'):
+    for k in ('split', 'padding-added', 'inserted:booster', 'inserted:preamp', 'inserted:inline', 'no-insert-edfas'):
         rep.require(rep.tags.get(k, 0) >= 1, f'{k} never observed')
